@@ -5,8 +5,8 @@
 (b) correspondence inside Coq: every recorded refinement (arguments and answer of least_squares as seen from
     droplets.image_analysis, dilation count, returned droplet or error) against the model fed with the recorded
     answer; oracle spec of least_squares and the normalisation-invariance premise checked per call
-(c) property oracle from the property text over the implementation (main stream, fixed-point stream, probe streams
-    of the known-finding classes F20, F22, F23, F24, F25)
+(c) property oracle from the property text over the implementation (main stream incl. fixed-point cases, corpus of the repaired defects F10 / F21 / F23,
+    probe streams of the known-finding classes F20, F22, F24, F25)
 """
 from __future__ import annotations
 
@@ -79,11 +79,29 @@ def probe_cases(rng: random.Random) -> list[tuple[str, dict]]:
         c["position"][2] += rng.choice([-1, 1]) * L
         out.append(("F22", {"grid": gs, "image": rc.gen_image_spec(rng, t, "clean"), "candidate": c,
                             "vmin": [0.0, None][k % 2], "vmax": 1.0, "adjust": bool(k // 2)}))
-    # F23: empty fit region and an automatic level
-    out.append(("F23", {"grid": g2, "image": clean, "candidate": {"cls": "DiffuseDroplet", "position": [8.0, 8.0], "radius": 0.3, "width": 1.0},
-                        "vmin": None, "vmax": 1.0, "adjust": False}))
-    out.append(("F23", {"grid": g2, "image": clean, "candidate": {"cls": "SphericalDroplet", "position": [40.0, 40.0], "radius": 2.0},
-                        "vmin": 0.0, "vmax": None, "adjust": True}))
+    # F23 (fixed by c34dec3): empty fit region and an automatic level must not raise any more -> stream "corpus"
+    out.append(("corpus", {"grid": g2, "image": clean, "candidate": {"cls": "DiffuseDroplet", "position": [8.0, 8.0], "radius": 0.3, "width": 1.0},
+                           "vmin": None, "vmax": 1.0, "adjust": False}))
+    out.append(("corpus", {"grid": g2, "image": clean, "candidate": {"cls": "SphericalDroplet", "position": [40.0, 40.0], "radius": 2.0},
+                           "vmin": 0.0, "vmax": None, "adjust": True}))
+    out.append(("corpus", {"grid": g2, "image": clean, "candidate": {"cls": "DiffuseDroplet", "position": [8.0, 8.0], "radius": 0.3, "width": None},
+                           "vmin": None, "vmax": None, "adjust": True}))
+    # F10 (fixed by b0d0bdc): intensities in [5, 6] with fitted automatic levels
+    t10 = {"cls": "DiffuseDroplet", "position": [8.0, 8.0], "radius": 4.0, "width": 1.0}
+    out.append(("corpus", {"grid": g2, "image": {"kind": "affine", "truth": [t10], "a": 1.0, "b": 5.0, "sigma": 0.0, "nseed": 1},
+                           "candidate": {"cls": "DiffuseDroplet", "position": [8.2, 7.9], "radius": 3.8, "width": 1.0},
+                           "vmin": None, "vmax": None, "adjust": True}))
+    # F21 (fixed by b31aa69): candidates away from the symmetry locus
+    gcn = {"family": "cylindrical", "radius": 8.0, "bounds_z": [0.0, 16.0], "shape": [8, 16], "periodic_z": False}
+    t21 = {"cls": "DiffuseDroplet", "position": [0.0, 0.0, 8.0], "radius": 4.0, "width": 1.0}
+    out.append(("corpus", {"grid": gcn, "image": {"kind": "clean", "truth": [t21], "a": 1.0, "b": 0.0, "sigma": 0.0, "nseed": 1},
+                           "candidate": {"cls": "DiffuseDroplet", "position": [0.3, 0.4, 8.2], "radius": 4.2, "width": 1.0},
+                           "vmin": 0.0, "vmax": 1.0, "adjust": False}))
+    gsp = {"family": "spherical", "radius": [0.0, 8.0], "shape": 16}
+    t21s = {"cls": "DiffuseDroplet", "position": [0.0, 0.0, 0.0], "radius": 4.0, "width": 1.0}
+    out.append(("corpus", {"grid": gsp, "image": {"kind": "clean", "truth": [t21s], "a": 1.0, "b": 0.0, "sigma": 0.0, "nseed": 1},
+                           "candidate": {"cls": "DiffuseDroplet", "position": [0.0, 0.0, -0.2], "radius": 4.2, "width": 1.0},
+                           "vmin": 0.0, "vmax": 1.0, "adjust": False}))
     # F24: axisymmetric class on a Cartesian 3-d grid
     g3 = {"family": "cartesian", "bounds": [[-4.0, 4.0], [-4.0, 4.0], [0.0, 8.0]], "shape": [8, 8, 8], "periodic": [False] * 3}
     t3 = {"cls": "DiffuseDroplet", "position": [0.0, 0.0, 4.2], "radius": 2.3, "width": 1.0}
@@ -165,7 +183,7 @@ def check(ctx: vlib.Ctx) -> int:
     rng = random.Random(ctx.seed)
     ok, fresh = rc.prove_with_fallback(ctx, ["Proofs/C04.vo"], ["Gen_refine", "Gen_refine_R"])
     state = {"fits": 0, "spec": [], "premise": [], "lits": [], "lit_cases": [], "known": {}, "fails": []}
-    n_main = ctx.scale(420, 4200) if not ctx.broken else ctx.scale(900, 6000)
+    n_main = ctx.scale(900, 6000) if not ctx.broken else ctx.scale(1500, 9000)
     for k in range(n_main):
         case = rc.gen_case(rng, k) if k % 6 else rc.gen_fixed_point_case(rng, k)
         rec, fails = evaluate(ctx, "main", case, state)
